@@ -141,9 +141,13 @@ def real_installed():
         _REAL = (table, classes)
     return _REAL
 
+_DFT = None
 def defaults_table():
-    import pybtex.plugin as pp
-    return [[g, d] for g, d in pp._DEFAULT_PLUGINS.items()]
+    global _DFT
+    if _DFT is None:
+        import pybtex.plugin as pp
+        _DFT = [[g, d] for g, d in pp._DEFAULT_PLUGINS.items()]
+    return _DFT
 
 class Registry:
     """run code against pybtex.plugin with an empty _RUNTIME_PLUGINS (restored afterwards) and,
@@ -594,6 +598,17 @@ def impl_real(arg):
                 return q
             add('W:to_file:name:%s' % sfx, file_bytes(lambda: wr(True)))
             add('W:to_file:suffix:%s' % sfx, file_bytes(lambda: wr(False)))
+            def wr_named_stream():
+                # a file object opened by the caller: the format comes from its .name
+                if os.path.exists(q):
+                    os.remove(q)
+                st = io.open(q, 'w', encoding=enc, newline='') if wtext else io.open(q, 'wb')
+                try:
+                    db.to_file(st, encoding=enc)
+                finally:
+                    st.close()
+                return q
+            add('W:to_file:stream-suffix:%s' % sfx, file_bytes(wr_named_stream))
         q0 = my_tmp('realout2' + suffixes[0])
         def wr2():
             Writer(encoding=enc).write_file(db, q0)
@@ -738,13 +753,29 @@ FUNCS = {
     8: ('open failures on the real file system (open_raw/open_unicode/to_file/write_file/parse_file)', impl_fs, 'X'),
 }
 
+class _Intern:
+    """group strings -> indices into a per-case table (Extr/C17.v d_gstr)"""
+    def __init__(self):
+        self.idx, self.tab = {}, []
+    def __call__(self, g):
+        key = g if isinstance(g, str) else tuple(g)
+        i = self.idx.get(key)
+        if i is None:
+            i = self.idx[key] = len(self.tab)
+            self.tab.append(g)
+        return i
+    def calls(self, calls):
+        return [[c[0], self(c[1])] + list(c[2:]) for c in calls]
+
 def model_arg(fn, arg):
     if fn == 1:
         mode, calls = arg
         inst = FAKE_INST if mode == 0 else real_installed()[0]
-        return [[[g, n, k] for (g, n, k) in inst], defaults_table(), calls]
+        it = _Intern()
+        return [[[it(g), n, k] for (g, n, k) in inst], [[it(g), d] for g, d in defaults_table()], it.calls(calls), it.tab]
     if fn == 6:
-        return [[[g, n, k] for (g, n, k) in FAKE6], defaults_table()] + list(arg)
+        it = _Intern()
+        return [[[it(g), n, k] for (g, n, k) in FAKE6], [[it(g), d] for g, d in defaults_table()], it.calls(arg[0])] + list(arg[1:]) + [it.tab]
     if fn == 8:
         return model_arg_fs(arg)
     return arg
@@ -847,7 +878,7 @@ def oracle_registry(arg, out):
     return None
 
 def defaults_table_s():
-    return [(S(norm(g)), S(norm(d))) for g, d in defaults_table()]
+    return [(g, d) for g, d in defaults_table()]
 
 def oracle_open(arg, out, with_log=True):
     script, target, mode, enc, tex, isfile, kp, which = arg
